@@ -50,6 +50,18 @@ func Shrink(t *testing.T, P Property, p *Plan, v *Violation) *Plan {
 	for pass := 0; pass < 6; pass++ {
 		progress := false
 
+		// Property-specific simplifications (simpler query, ...).
+		if sc, ok := P.(interface{ ShrinkCandidates(*Plan) []*Plan }); ok {
+			for again := true; again; {
+				again = false
+				for _, c := range sc.ShrinkCandidates(best) {
+					if try(c) {
+						progress, again = true, true
+						break
+					}
+				}
+			}
+		}
 		// Drop containers.
 		for i := len(best.World.Containers) - 1; i >= 0; i-- {
 			if len(best.World.Containers) <= 1 && best.Harness == "parselog" {
